@@ -53,6 +53,13 @@ def _preload():
     import workload.graph  # noqa: F401
 
 
+def eff_runtimes(case):
+    """runtimes of the case in microseconds: nodes listed in case['ms_nodes'] carry their runtime in MILLISECONDS (the
+    same number, another EventTime unit) -- mixed units are legal input (seed C17-4)"""
+    ms = set(case.get("ms_nodes") or ())
+    return [r * 1000 if i in ms else r for i, r in enumerate(case["runtimes"])]
+
+
 def build(case):
     """Rebuild the concrete graph of a case. Returns (graph, nodes) with nodes[i] = object of label i.
 
@@ -96,10 +103,12 @@ def build(case):
         rt = case["runtimes"]
         lg = logging.getLogger("bounded.graphs")
         us = EventTime.Unit.US
+        ms_nodes = set(case.get("ms_nodes") or ())
 
         def profile(i):
             res = Resources(resource_vector={Resource(name="CPU", _id="any"): 1})
-            strategies = [ExecutionStrategy(resources=res, batch_size=1, runtime=EventTime(rt[i], us))]
+            unit_i = EventTime.Unit.MS if i in ms_nodes else us
+            strategies = [ExecutionStrategy(resources=res, batch_size=1, runtime=EventTime(rt[i], unit_i))]
             if i % 2 == 1:
                 # a second, faster strategy: the slowest one (the one that counts) is still rt[i]
                 strategies.insert(0, ExecutionStrategy(resources=res, batch_size=1, runtime=EventTime(1, us)))
@@ -282,7 +291,7 @@ def describe(case):
         case["n"],
         case.get("ctor"),
         case.get("ops"),
-        (" runtimes_us=%s" % (case["runtimes"],)) if case.get("runtimes") else "",
+        (" runtimes_us=%s%s" % (eff_runtimes(case), " (nodes %s given in ms)" % sorted(case["ms_nodes"]) if case.get("ms_nodes") else "")) if case.get("runtimes") else "",
     )
 
 
@@ -474,7 +483,7 @@ def _check_case(case, V, O, C, cur):
             check_path("longest_path", "get_longest_path()", lab(r), [1] * n, "node count")
         wlist = list(case.get("weights") or ())
         if case.get("runtimes"):
-            wlist.append(list(case["runtimes"]))
+            wlist.append(eff_runtimes(case))
         for w in wlist:
             ok, r = call("Graph.get_longest_path", lambda: g.get_longest_path(lambda node: w[idx[node]]))
             if not ok:
@@ -489,7 +498,7 @@ def _check_case(case, V, O, C, cur):
     if cls in ("taskgraph", "jobgraph") and n > 0:
         from utils import EventTime
 
-        best = S.max_weight(case["runtimes"])
+        best = S.max_weight(eff_runtimes(case))
         props = [("critical_path_runtime", "critical_path_runtime")]
         if cls == "jobgraph":
             props.append(("completion_time", "completion_time"))
@@ -841,11 +850,16 @@ def task_exhaustive(t):
                     rts = allw
                 else:
                     rts = [rng.choice(allw) for _ in range(int(wmode.split(":")[1]) if ":" in wmode else 2)]
-                for rt in rts:
+                for ri, rt in enumerate(rts):
                     c = dict(case)
                     c["runtimes"] = rt
                     extra = sum((w - 1) * 3**i for i, w in enumerate(rt))
                     sink.run(c, small_key(cls, n, edges, style, extra), bool(edges))
+                    if n >= 2 and (ri + k) % 3 == 0:
+                        # the same graph with every second node's runtime given in milliseconds (mixed EventTime units)
+                        c2 = dict(c)
+                        c2["ms_nodes"] = [i for i in range(n) if (i + k) % 2 == 0]
+                        sink.run(c2, small_key(cls, n, edges, style, extra) ^ (1 << 19), bool(edges))
     return sink.result()
 
 
@@ -988,6 +1002,7 @@ def task_random(t):
             case["observe_bfs_from"] = True
         else:
             case["runtimes"] = [rng.choice((1, 2, 3)) if rng.random() < 0.5 else rng.randint(1, 5000) for _ in range(n)]
+            case["ms_nodes"] = [i for i in range(n) if rng.random() < 0.3]
         if n > 14:
             sp = Spec(n, edges)
             pos = [(a, b) for a in range(n) for b in range(n) if a != b and sp.reaches(a, b)]
